@@ -334,3 +334,133 @@ def tolist(a):
     if np.iscomplexobj(a):
         return dict(re=a.real.tolist(), im=a.imag.tolist())
     return a.tolist()
+
+
+# ----------------------------------------------------------------------------- Holstein models (C10)
+class HolsteinTiny:
+    """A small `HolsteinModel` together with dense matrices written down independently:
+    H = sum_ij J_ij a†_i a_j + sum_i (elocalex_i + lambda_i) a†_i a_i + sum_in w_in (b†b + 1/2)
+        - sum_in w_in^{3/2} d_in / sqrt2 * a†_i a_i (b† + b)          (lambda_i = sum_n w^2 d^2 / 2)
+    mols: list of dict(elocalex, modes=[(omega, dis, nbas), ...]);  scheme 1..4"""
+
+    def __init__(self, mols, jmat, scheme):
+        from renormalizer.model import Phonon, Mol, HolsteinModel
+        self.mols, self.jmat, self.scheme = mols, np.array(jmat, dtype=float), scheme
+        mol_list = []
+        for m in mols:
+            phs = [Phonon.simple_phonon(Quantity(w), Quantity(d), nb) for (w, d, nb) in m["modes"]]
+            mol_list.append(Mol(Quantity(m["elocalex"]), phs))
+        self.model = HolsteinModel(mol_list, self.jmat, scheme)
+        nmol = len(mols)
+        # site layout: list of ("e", imol) / ("E",) / ("v", imol, imode)
+        lay = []
+        if scheme < 4:
+            for i, m in enumerate(mols):
+                lay.append(("e", i))
+                for k in range(len(m["modes"])):
+                    lay.append(("v", i, k))
+        else:
+            nleft = nmol // 2
+            for i, m in enumerate(mols):
+                if i == nleft:
+                    lay.append(("E",))
+                for k in range(len(m["modes"])):
+                    lay.append(("v", i, k))
+            if nleft == nmol:
+                lay.append(("E",))
+        self.layout = lay
+        self.dims = []
+        for s in lay:
+            if s[0] == "e":
+                self.dims.append(2)
+            elif s[0] == "E":
+                self.dims.append(nmol + 1)
+            else:
+                self.dims.append(mols[s[1]]["modes"][s[2]][2])
+        self.dim = int(np.prod(self.dims))
+        self.nmol = nmol
+
+    def embed(self, ops):
+        out = np.eye(1)
+        for i, d in enumerate(self.dims):
+            out = np.kron(out, ops.get(i, np.eye(d)))
+        return out
+
+    def _e_op(self, i, j):
+        """dict site->matrix for a†_i a_j"""
+        if self.scheme < 4:
+            si, sj = self.layout.index(("e", i)), self.layout.index(("e", j))
+            if i == j:
+                return {si: _ELEC[r"a^\dagger a"]}
+            return {si: _ELEC[r"a^\dagger"], sj: _ELEC["a"]}
+        s = self.layout.index(("E",))
+        m = np.zeros((self.nmol + 1, self.nmol + 1))
+        m[i + 1, j + 1] = 1.0
+        return {s: m}
+
+    def number_e(self, i):
+        return self.embed(self._e_op(i, i))
+
+    def number_v(self, i, k):
+        s = self.layout.index(("v", i, k))
+        return self.embed({s: _sho(self.dims[s])[r"b^\dagger b"]})
+
+    def nex(self):
+        return sum(self.number_e(i) for i in range(self.nmol))
+
+    def sector(self, n):
+        return np.isclose(np.diag(self.nex()).real, n)
+
+    def dense_h(self):
+        h = np.zeros((self.dim, self.dim))
+        for i, m in enumerate(self.mols):
+            lam = sum(0.5 * w * w * d * d for (w, d, nb) in m["modes"])
+            h = h + (m["elocalex"] + lam) * self.number_e(i)
+            for j in range(self.nmol):
+                if i != j and self.jmat[i, j] != 0:
+                    h = h + self.jmat[i, j] * self.embed(self._e_op(i, j))
+            for k, (w, d, nb) in enumerate(m["modes"]):
+                s = self.layout.index(("v", i, k))
+                sm = _sho(nb)
+                h = h + w * self.embed({s: sm[r"b^\dagger b"] + 0.5 * np.eye(nb)})
+                ops = dict(self._e_op(i, i))
+                ops[s] = sm[r"b^\dagger+b"]
+                h = h + (-(w ** 1.5) * d / np.sqrt(2.0)) * self.embed(ops)
+        return h
+
+    def dense_hloc(self, space):
+        """the purely local vibrational Hamiltonian of `Mpo.exact_propagator` (its docstring):
+        GS: sum w b†b ; EX: sum w b†b - w^{3/2} d/sqrt2 (b†+b).  No zero-point energy, identity on electrons"""
+        h = np.zeros((self.dim, self.dim))
+        for i, m in enumerate(self.mols):
+            for k, (w, d, nb) in enumerate(m["modes"]):
+                s = self.layout.index(("v", i, k))
+                sm = _sho(nb)
+                loc = w * sm[r"b^\dagger b"]
+                if space == "EX":
+                    loc = loc + (-(w ** 1.5) * d / np.sqrt(2.0)) * sm[r"b^\dagger+b"]
+                h = h + self.embed({s: loc})
+        return h
+
+    def describe(self):
+        return dict(mols=self.mols, jmat=self.jmat.tolist(), scheme=self.scheme, dims=self.dims)
+
+
+def gen_holstein(rng, nmol=None, scheme=None, max_dim=40):
+    for _ in range(50):
+        n = nmol or int(rng.integers(1, 3))
+        mols = []
+        for i in range(n):
+            nm = 1 if n == 2 else int(rng.integers(1, 3))
+            modes = [(float(np.round(rng.uniform(0.5, 1.5), 3)), float(np.round(rng.uniform(0.3, 1.2) * rng.choice([-1, 1]), 3)),
+                      int(rng.integers(2, 4))) for _ in range(nm)]
+            mols.append(dict(elocalex=float(np.round(rng.uniform(0.0, 1.0), 3)), modes=modes))
+        j = np.zeros((n, n))
+        for a in range(n):
+            for b in range(a + 1, n):
+                j[a, b] = j[b, a] = float(np.round(rng.uniform(0.3, 1.0) * rng.choice([-1, 1]), 3))
+        sch = scheme or int(rng.choice([1, 2, 3, 4]))
+        ht = HolsteinTiny(mols, j, sch)
+        if ht.dim <= max_dim:
+            return ht
+    return ht
